@@ -270,6 +270,17 @@ func staleIndexRelevant(ev []verifsim.Event, node int, ifn string, seq int) bool
 	return reindexed && redialed
 }
 
+// deliveredAlive reports whether a packet action was handed to a connection
+// that was still in service at that moment (a packet arriving on a socket that
+// is being replaced is simply lost; that is nobody's defect).
+func (h *history) deliveredAlive(e *verifsim.Event) bool {
+	g := h.byKey[genKey(e.Node, e.If, e.Gen)]
+	if g == nil {
+		return false
+	}
+	return g.endSeq == 0 || g.endSeq > e.Seq
+}
+
 func isAllNodes(a netip.Addr) bool { return a == netip.IPv6LinkLocalAllNodes() }
 
 func ms(ns int64) string { return fmt.Sprintf("%.6fs", float64(ns)/1e9) }
